@@ -1117,6 +1117,80 @@ Section Genesis.
   Qed.
 End Genesis.
 
+(** ---- effect form over the extended chain ---- *)
+Section XControl.
+  Variable c : cfg.
+  Variable str_of : acct -> string.
+  Variable authority : string.
+  Hypothesis addr_of_empty : addr_of c EmptyString = None.
+  Hypothesis str_of_parses : forall a, addr_of c (str_of a) = Some a.
+
+  Let xstep_out := xstep_out c str_of authority.
+  Let xstep := xstep c str_of authority.
+
+  (** In a state the chain can reach, if ANY honest op — a user's message, a contract's binding call,
+      a fee change, another module, a genesis round trip — changes the admin record of a denom whose
+      admin is [a], or (the genesis round trip aside, which resets bank metadata) its metadata, then
+      that op is a successful privileged call on that denom made by [a]. *)
+  Theorem xcontrol_only_by_admin xs o d a :
+    xwf c xs -> honest o -> admin_rec (st xs) d = Some a ->
+    admin_rec (st (xstep xs o)) d <> Some a \/
+      (o <> XGenesis /\ meta_of (st (xstep xs o)) d <> meta_of (st xs) d) ->
+    xprivileged str_of o = Some (a, d) /\ Chain.xsucceeded c str_of authority xs o = true.
+  Proof.
+    intros X Hh Hadm Ch. pose proof X as (W & _).
+    destruct o as [o|m|ct w|au cr f v|]; [| contradiction | | |].
+    - (* first-round ops: the first-round effect theorem under the fee in force *)
+      destruct (xstep_base c str_of authority xs o) as (E1 & E2 & _). fold xstep in E1.
+      rewrite E1 in Ch.
+      assert (Ch' : admin_rec (step (cfg_at c xs) (st xs) o) d <> Some a \/
+                    meta_of (step (cfg_at c xs) (st xs) o) d <> meta_of (st xs) d) by tauto.
+      destruct (control_only_by_admin (cfg_at c xs) addr_of_empty _ _ _ _ W Hadm Ch')
+        as (m & -> & Hs & P & Su & _).
+      split.
+      + simpl. rewrite P, Hs. reflexivity.
+      + unfold Chain.xsucceeded. fold xstep_out. unfold xstep_out. rewrite E2. exact Su.
+    - (* bindings *)
+      unfold xstep, Chain.xstep, Chain.xsucceeded in *. cbn [Chain.xstep_out] in *.
+      destruct (perform c str_of xs ct w) as [xs' [r|e]] eqn:P; cbn [fst snd is_ok] in *.
+      2:{ apply perform_err in P. subst. exfalso. destruct Ch as [Ch|[_ Ch]]; apply Ch; auto. }
+      split; [|reflexivity].
+      destruct w as [sub md|d0 x to|d0 x from|d0 na|d0 base valid tag]; simpl.
+      + exfalso.
+        destruct (wasm_create_effect _ _ str_of_parses _ _ _ _ _ _ P) as (_ & M0 & _ & _ & _ & _ & _ & _ & _ & O & _).
+        destruct (string_dec d r) as [->|N].
+        * apply (W r); [rewrite Hadm; discriminate|exact M0].
+        * destruct (O d N) as [OA OM]. rewrite OA, OM in Ch. destruct Ch as [Ch|[_ Ch]]; apply Ch; auto.
+      + exfalso.
+        destruct (wasm_mint_effect _ _ addr_of_empty str_of_parses _ _ _ _ _ _ _ P) as (rc & s1 & _ & _ & _ & _ & _ & _ & _ & M & A & _).
+        unfold admin_rec, meta_of in *. rewrite M, A in Ch. destruct Ch as [Ch|[_ Ch]]; apply Ch; auto.
+      + exfalso.
+        destruct (wasm_burn_effect _ _ addr_of_empty str_of_parses _ _ _ _ _ _ _ P) as (_ & _ & _ & _ & _ & M & A & _).
+        unfold admin_rec, meta_of in *. rewrite M, A in Ch. destruct Ch as [Ch|[_ Ch]]; apply Ch; auto.
+      + pose proof (wasm_only_admin _ _ addr_of_empty str_of_parses _ _ _ _ _ d0 P eq_refl) as OA.
+        unfold perform in P. destruct (addr_of c na) as [a0|]; [|discriminate].
+        destruct (deliver _ (st xs) (MChangeAdmin (str_of ct) d0 (str_of a0))) as [s1 [r1|e1]] eqn:D; [|discriminate].
+        inversion P; subst. destruct (change_admin_spec _ addr_of_empty _ _ _ _ _ _ D) as (_ & _ & ->).
+        simpl in Ch. rewrite admin_rec_set_admin in Ch.
+        destruct (String.eqb d d0) eqn:E.
+        * apply String.eqb_eq in E. subst d0. rewrite Hadm in OA. inversion OA. reflexivity.
+        * exfalso. destruct Ch as [Ch|[_ Ch]]; apply Ch; auto.
+      + pose proof (wasm_only_admin _ _ addr_of_empty str_of_parses _ _ _ _ _ d0 P eq_refl) as OA.
+        unfold perform in P. destruct (perform_set_meta (st xs) (str_of ct) d0 base valid tag) as [s1|] eqn:PM; [|discriminate].
+        inversion P; subst. apply perform_set_meta_ok in PM as (_ & _ & _ & ->).
+        simpl in Ch. rewrite meta_of_set_meta in Ch.
+        destruct (String.eqb d d0) eqn:E.
+        * apply String.eqb_eq in E. subst d0. rewrite Hadm in OA. inversion OA. reflexivity.
+        * exfalso. destruct Ch as [Ch|[_ Ch]]; apply Ch; auto.
+    - exfalso. unfold xstep, Chain.xstep in Ch. cbn [Chain.xstep_out] in Ch. unfold update_params in Ch.
+      destruct (valid_addr c cr && String.eqb au cr && v);
+        [destruct (String.eqb au authority)|]; simpl in Ch; destruct Ch as [Ch|[_ Ch]]; apply Ch; auto.
+    - exfalso. unfold xstep, Chain.xstep in Ch. cbn [Chain.xstep_out] in Ch.
+      destruct (genesis_roundtrip_effect c str_of str_of_parses xs X) as (xs' & G & A & _).
+      rewrite G in Ch. cbn [fst] in Ch. rewrite A in Ch. destruct Ch as [Ch|[Ch _]]; apply Ch; auto.
+  Qed.
+End XControl.
+
 (** ---- non-vacuity and witnesses ---- *)
 Module XEx.
   Open Scope string_scope.
